@@ -9,7 +9,9 @@ every refusal must carry the original reason.
 
 from __future__ import annotations
 
+from vf import runner
 from vf.engines import hist
+from vf.ref import builder_model as bm
 
 ID = 'C17'
 LEVEL = 'model_checking'
@@ -20,6 +22,7 @@ ASSUMPTIONS = [
     'builders: no iteration, iteration (5, 1e-2), (50, 1e-4), (1, 1e-6), iteration with a low fuel heating value (negative first residual), weather, weather+iteration',
     'events: three valid missions, the same missions with a second performance model (same ceiling), a valid mission with explicit starting mass, unknown origin/destination, airport above cruise level, starting mass outside the envelope; weather builder: valid, missing weather file, outside weather domain',
     'dedup key = fingerprint of vars(builder) after the history',
+    'tolerance staircase: mass_iter_reltol placed just below / above / 1 % below every residual the iteration itself produces (first 3 stairs quick, 5 thorough), with the iteration cap one short of / far above the iterations needed; two fuel heating values x six missions',
 ]
 PLAN = {
     # (builder, alphabet, undedup depth, bfs depth)
@@ -54,7 +57,18 @@ def run(tier, seed):
         states += parts[-1]['states'] if bd else 0
         per.append({'builder': bname, 'alphabet': alpha, 'undeduplicated_depth': ud, 'undeduplicated_histories': a['traces'],
                     'bfs_depth': bd, 'bfs_states': parts[-1]['states'] if bd else None})
+    tasks = [(v, ev, tier) for v in bm.STAIR_VARIANTS for ev in bm.STAIR_MISSIONS]
+    stair = {'flights': 0, 'outcomes': {}, 'residuals': {}}
+    for r in runner.pool_map(bm.stair_task, tasks, runner.NPROC, None, ()):
+        vio += r['violations']
+        stair['flights'] += r['flights']
+        traces += r['flights']
+        transitions += r['flights']
+        for k, v in r['outcomes'].items():
+            stair['outcomes'][k] = stair['outcomes'].get(k, 0) + v
+        stair['residuals']['/'.join(r['task'])] = r['residuals']
     cov = {
+        'tolerance_staircase': stair,
         'states': max(states, 1),
         'transitions': transitions,
         'traces_validated_against_impl': traces,
@@ -69,4 +83,7 @@ def run(tier, seed):
 
 
 def replay(case):
+    if 'stair' in case:
+        c = case['stair']
+        return bm.stair_case(c['variant'], c['event'], c['reltol'], c['max_mass_iters'])[0]
     return hist.replay(DRIVER, case)
